@@ -78,4 +78,33 @@ def intOps (op : String) (args : List String) : Option String :=
   | "hex_to_u64", [b] => do let b ← parseBytes? b; pure (showOutcome toString (hexToU64 b))
   | _, _ => none
 
+/-- digest of an id list: length, order-sensitive multiplicative hash, sum and xor (all mod 2^64) -/
+def digestList (l : List Nat) : String :=
+  let (h, sm, x) := l.foldl (fun (acc : UInt64 × UInt64 × UInt64) v =>
+      let v := v.toUInt64
+      ((acc.1 ^^^ v) * 1099511628211, acc.2.1 + v, acc.2.2 ^^^ v)) ((14695981039346656037 : UInt64), 0, 0)
+  s!"n={l.length} h={h} s={sm} x={x}"
+
+/-- `digest <request>` for the list-valued operations: the same outcome with the list replaced by its digest -/
+def digestOps (op : String) (args : List String) : Option String :=
+  match op, args with
+  | "cell_to_children", [a, r] => do
+      let n ← a.toNat?; let r ← parseOptInt? r
+      pure (showOutcome digestList (cellToChildren n r))
+  | "compact", [l] => do let l ← parseNatList? l; pure (showOutcome digestList (compact l))
+  | "uncompact", [l, t] => do
+      let l ← parseNatList? l; let t ← parseInt? t
+      pure (showOutcome digestList (uncompact l t))
+  | "get_res0_cells", [] => some (showOutcome digestList getRes0Cells)
+  | _, _ => none
+
+/-- digest of any other response text: number of `;`-separated items and the FNV-1a hash of the payload bytes -/
+def digestStr (resp : String) : String :=
+  if resp.startsWith "ok " then
+    let body := (resp.drop 3).toString
+    let (h, n) := body.toUTF8.foldl (fun (acc : UInt64 × Nat) b =>
+      ((acc.1 ^^^ b.toUInt64) * 1099511628211, if b == 59 then acc.2 + 1 else acc.2)) ((14695981039346656037 : UInt64), 1)
+    s!"ok n={n} h={h}"
+  else resp
+
 end A5.Driver
